@@ -216,6 +216,9 @@ pub struct RunScript {
     pub fs_write_stall: Option<String>,
     #[serde(default)]
     pub env_actions: Vec<EnvAction>,
+    /// RLIMIT_NOFILE of the monorail process of this run (None = the world's / inherited)
+    #[serde(default)]
+    pub nofile: Option<u64>,
 }
 impl RunScript {
     pub fn simple(opts: RunOpts) -> RunScript {
@@ -235,6 +238,7 @@ impl RunScript {
             lfaults: vec![],
             fs_write_stall: None,
             env_actions: vec![],
+            nofile: None,
         }
     }
     pub fn behav_for(&self, command: &str, target: &str) -> Option<&Behav> {
@@ -367,7 +371,13 @@ pub fn drive_run_l(w: &mut World, actor: &str, sc: &RunScript, hang: Duration, l
             env.push(("FSFAULT_LOG".into(), l.clone()));
         }
     }
-    let proc_id = match w.start_m(actor, &args, "*", &env) {
+    let saved_nofile = w.nofile;
+    if sc.nofile.is_some() {
+        w.nofile = sc.nofile;
+    }
+    let started = w.start_m(actor, &args, "*", &env);
+    w.nofile = saved_nofile;
+    let proc_id = match started {
         Ok(p) => p,
         Err(e) => {
             tr.hang = Some(format!("could not start monorail: {}", e));
